@@ -79,7 +79,7 @@ def mkframe(s):
 
 PERTURBATIONS = ["in_port", "dl_src", "dl_dst", "dl_vlan", "dl_vlan_untag", "dl_vlan_pcp", "dl_type", "nw_tos",
                  "nw_proto", "nw_src_in", "nw_src_out", "nw_dst_in", "nw_dst_out", "nw_src_hi", "nw_dst_hi",
-                 "tp_src", "tp_dst", "frag_mf", "frag_off", "ecn", "snap_oui"]
+                 "tp_src", "tp_dst", "frag_mf", "frag_off", "ecn", "snap_oui", "arp_op_hi"]
 
 
 def perturb(spec, in_port, what, ps=32, pd=32):
@@ -159,6 +159,10 @@ def perturb(spec, in_port, what, ps=32, pd=32):
       return None
     k = "sport" if what == "tp_src" else "dport"
     s[k] = s.get(k, 1000 if k == "sport" else 2000) ^ 1
+  elif what == "arp_op_hi":
+    if l3 != "arp":
+      return None
+    s["op"] = s.get("op", 1) ^ 0x0100          # opcode above 255 with the same low byte
   elif what == "snap_oui":
     if s.get("l2") != "snap":
       return None
